@@ -1127,7 +1127,7 @@ static int vc_insert(int cmd)
 static int vc_put(int cmd)
 {
 	int cnt = MAX(1, vi_arg1);
-	int lnmode;
+	int lnmode = 0;
 	char *buf = reg_get(vi_ybuf, &lnmode);
 	int lncnt = 0;
 	int i;
